@@ -23,7 +23,8 @@ fn configure_with(nr: u8) {
     core::mem::forget(cs);
 }
 
-/// for every value of the header field nr_pow2range_cols (bounded by 6 for loop unwinding) configure does not panic
+/// Whole `ZkStdLib::configure` with symbolic nr_pow2range_cols: thorough tier only (measured: CBMC needs
+/// more than 12 GB in the quick configuration even with create_gate/lookup stubbed).
 #[cfg_attr(kani, kani::proof)]
 #[cfg_attr(kani, kani::unwind(14))]
 #[cfg_attr(kani, kani::stub(std::hash::RandomState::new, crate::stubs::random_state_new_stub))]
@@ -38,20 +39,32 @@ pub fn configure_nr_pow2range_any() {
     configure_with(nr);
 }
 
-/// the documented range 1..=4 is fine
+/// Leaf with the panic site: the REAL `Pow2RangeChip::configure(meta, columns)` on a symbolic number of
+/// columns (`ZkStdLib::configure` passes `&advice_columns[1..=nr_pow2range_cols]`, i.e. exactly
+/// nr_pow2range_cols columns, and nr_pow2range_cols comes verbatim from the wire: arch_read_total).
+/// Property: no panic for any column count the decoder lets through.
 #[cfg_attr(kani, kani::proof)]
-#[cfg_attr(kani, kani::unwind(14))]
+#[cfg_attr(kani, kani::unwind(9))]
 #[cfg_attr(kani, kani::stub(std::hash::RandomState::new, crate::stubs::random_state_new_stub))]
-#[cfg_attr(kani, kani::stub(midnight_proofs::plonk::ConstraintSystem::create_gate, crate::stubs::CsStubs::create_gate))]
 #[cfg_attr(kani, kani::stub(midnight_proofs::plonk::ConstraintSystem::lookup, crate::stubs::CsStubs::lookup))]
-#[cfg_attr(kani, kani::stub(midnight_circuits::field::foreign::nb_field_chip_columns, crate::stubs::nb_field_chip_columns_stub))]
-#[cfg_attr(kani, kani::stub(midnight_circuits::ecc::foreign::nb_foreign_ecc_chip_columns, crate::stubs::nb_foreign_ecc_chip_columns_stub))]
-pub fn configure_nr_pow2range_in_range() {
+pub fn pow2range_configure_column_count() {
+    use midnight_circuits::field::decomposition::pow2range::Pow2RangeChip;
     let nr: u8 = any();
-    assume(nr >= 1 && nr <= 4);
+    assume(nr <= 6);
     crate::vcover!(nr == 4);
-    crate::vcover!(nr == 1);
-    configure_with(nr);
+    crate::vcover!(nr == 0);
+    let mut cs = ConstraintSystem::<F>::default();
+    let cols = [
+        cs.advice_column(),
+        cs.advice_column(),
+        cs.advice_column(),
+        cs.advice_column(),
+        cs.advice_column(),
+        cs.advice_column(),
+    ];
+    let cfg = Pow2RangeChip::<F>::configure(&mut cs, &cols[..nr as usize]);
+    core::mem::forget(cfg);
+    core::mem::forget(cs);
 }
 
 /// `ZkStdLibArch::read` on arbitrary bytes: a value, never a panic; a descriptor that decodes has the
